@@ -1,5 +1,8 @@
 """C18 — ECC corrects every single-bit error and flags every double-bit error (litex/soc/cores/ecc.py).
 
+regen: the GF(2) tables the elaborated netlists implement (zero word + unit vectors; k = 1..16, 32, 64, 128) are written
+to lean/LitexModel/Generated/EccTables.lean and compared with the model by the Lean kernel (LitexProofs/Ecc/Tables*.lean).
+A changed table breaks the build; the runner then skips `correspond` and `search` works from the tables + monitors.
 correspond: (1) corpus; (2) geometry helpers vs the Lean model for ALL k in 1..512 (mode C, complete on that range);
 (3) encoder/decoder netlists vs the Lean `encode`/`decode`: k <= 8 (quick: k <= 6) over ALL data words and ALL
 2^(n+1) decoder input words x enable; k in {11,15,16,26,32,57,64,120,128}: data words x all single flips x all
